@@ -432,3 +432,483 @@ func c08Round2(c *Ctx) {
 		}
 	}
 }
+
+// lowerCasedAt: forward must-dataflow over f's CFG: is the string variable obj
+// lower-cased on every path when node `at` is reached?  A value is lower-cased
+// if it is the result of strings.ToLower / dns.CanonicalName, or a slice / copy
+// of a lower-cased variable.
+func lowerCasedAt(f *core.Func, at ast.Node, obj types.Object) bool {
+	info := f.Info()
+	g := f.Graph()
+	var isLower func(env map[types.Object]bool, e ast.Expr) bool
+	isLower = func(env map[types.Object]bool, e ast.Expr) bool {
+		switch x := ast.Unparen(e).(type) {
+		case *ast.CallExpr:
+			if cal := core.Callee(info, x); cal != nil {
+				if (cal.Pkg() != nil && cal.Pkg().Path() == "strings" && cal.Name() == "ToLower") || cal.Name() == "CanonicalName" {
+					return true
+				}
+			}
+		case *ast.SliceExpr:
+			return isLower(env, x.X)
+		case *ast.Ident:
+			return env[info.ObjectOf(x)]
+		case *ast.BasicLit:
+			return true
+		}
+		return false
+	}
+	type env = map[types.Object]bool
+	in := map[int]env{0: {}}
+	work := []int{0}
+	result, seen := false, false
+	blocks := g.CFG.Blocks
+	for iter := 0; len(work) > 0 && iter < 5000; iter++ {
+		bi := work[0]
+		work = work[1:]
+		b := blocks[bi]
+		e := env{}
+		for k, v := range in[bi] {
+			e[k] = v
+		}
+		for _, nd := range b.Nodes {
+			if nd == at {
+				if !seen {
+					result, seen = e[obj], true
+				} else {
+					result = result && e[obj]
+				}
+			}
+			if as, ok := nd.(*ast.AssignStmt); ok && len(as.Lhs) == len(as.Rhs) {
+				for i, l := range as.Lhs {
+					if id, ok := l.(*ast.Ident); ok {
+						if o := info.ObjectOf(id); o != nil {
+							e[o] = as.Tok.String() != "+=" && isLower(e, as.Rhs[i])
+						}
+					}
+				}
+			}
+		}
+		for _, s := range b.Succs {
+			old, ok := in[int(s.Index)]
+			changed := false
+			if !ok {
+				n := env{}
+				for k, v := range e {
+					n[k] = v
+				}
+				in[int(s.Index)] = n
+				changed = true
+			} else {
+				for k, v := range old {
+					if v && !e[k] {
+						old[k] = false
+						changed = true
+					}
+				}
+			}
+			if changed {
+				work = append(work, int(s.Index))
+			}
+		}
+	}
+	return seen && result
+}
+
+// C08 fixed-TTL key: names are case-insensitive; the fixed_domain_ttl table is
+// looked up with, and keyed by, the lower-case form.
+func c08FixedTtlKey(c *Ctx) {
+	const rule = "KEY"
+	f := c.fn(rule, "control", "DnsController.__updateDnsCacheDeadline")
+	if f != nil {
+		info := f.Info()
+		g := f.Graph()
+		done := false
+		for _, b := range g.CFG.Blocks {
+			if !b.Live {
+				continue
+			}
+			for _, nd := range b.Nodes {
+				ownCalls(nd, func(call *ast.CallExpr, _ bool) {
+					id, ok := call.Fun.(*ast.Ident)
+					if !ok || done {
+						return
+					}
+					v, isVar := info.ObjectOf(id).(*types.Var)
+					if !isVar || !isParamOf(f, v) {
+						return
+					}
+					if _, isSig := v.Type().Underlying().(*types.Signature); !isSig || len(call.Args) != 2 {
+						return
+					}
+					hid, ok := ast.Unparen(call.Args[1]).(*ast.Ident)
+					if !ok {
+						return
+					}
+					done = true
+					ok2 := lowerCasedAt(f, nd, info.ObjectOf(hid))
+					c.R.Checkf(rule, "fixed-ttl-lookup-name-is-lower-cased@__updateDnsCacheDeadline", c.pos(call.Pos()), ok2,
+						"the name handed to the deadline function (the key of the fixed_domain_ttl lookup) is lower-cased on every path: a question name in mixed case (DNS 0x20) must get the TTL configured for that name, as the cache key (fqdn) already is case-insensitive")
+				})
+			}
+		}
+		if !done {
+			c.R.Unresolved(rule, "__updateDnsCacheDeadline: call of the deadline function parameter")
+		}
+	}
+	if p := c.fn(rule, "control", "ParseFixedDomainTtl"); p != nil {
+		info := p.Info()
+		ok, n := true, 0
+		ast.Inspect(p.Body, func(m ast.Node) bool {
+			as, isAs := m.(*ast.AssignStmt)
+			if !isAs || len(as.Lhs) != 1 {
+				return true
+			}
+			ix, isIx := as.Lhs[0].(*ast.IndexExpr)
+			if !isIx {
+				return true
+			}
+			if _, isMap := info.TypeOf(ix.X).Underlying().(*types.Map); !isMap {
+				return true
+			}
+			n++
+			lowered := false
+			ast.Inspect(ix.Index, func(k ast.Node) bool {
+				if call, isC := k.(*ast.CallExpr); isC {
+					if cal := core.Callee(info, call); cal != nil && cal.Name() == "ToLower" {
+						lowered = true
+					}
+				}
+				return true
+			})
+			if !lowered {
+				ok = false
+			}
+			return true
+		})
+		c.R.Checkf(rule, "fixed-ttl-table-keys-are-lower-cased@ParseFixedDomainTtl", c.pos(p.Pos()), ok && n > 0, "the fixed_domain_ttl table is keyed by the lower-cased configured name (%d store(s))", n)
+	}
+}
+
+// C09 QMATCH: an upstream response is used (routed, cached, written to the
+// client) only after it was tested to carry the question that was asked; the
+// transaction id alone does not make it an answer to this query.
+func c09QuestionMatch(c *Ctx) {
+	const rule = "QMATCH"
+	f := c.fn(rule, "control", "DnsController.dialSend")
+	if f == nil {
+		return
+	}
+	info := f.Info()
+	g := f.Graph()
+	// the response variable: first result of forwardWithFallback
+	var resp types.Object
+	var recvPt *core.Point
+	for _, b := range g.CFG.Blocks {
+		if !b.Live {
+			continue
+		}
+		for i, nd := range b.Nodes {
+			as, ok := nd.(*ast.AssignStmt)
+			if !ok || len(as.Rhs) != 1 || len(as.Lhs) < 1 {
+				continue
+			}
+			call, ok := as.Rhs[0].(*ast.CallExpr)
+			if !ok {
+				continue
+			}
+			if cal := core.Callee(info, call); cal != nil && cal.Name() == "forwardWithFallback" {
+				if id, ok := as.Lhs[0].(*ast.Ident); ok {
+					resp = info.ObjectOf(id)
+					recvPt = &core.Point{B: b, I: i}
+				}
+			}
+		}
+	}
+	if resp == nil {
+		c.R.Unresolved(rule, "dialSend: respMsg, … = c.forwardWithFallback(…)")
+		return
+	}
+	// a question-agreement guard: a condition containing a call that receives the
+	// response and whose callee compares the question's name and type; its failing edge only returns errors
+	comparesQuestion := func(cal *types.Func) bool {
+		for _, rp := range c.P.RepoPkgs() {
+			rel := strings.TrimPrefix(strings.TrimPrefix(rp.PkgPath, core.ModPath), "/")
+			for _, cf := range c.P.FuncsIn(rel) {
+				if cf.Obj == cal {
+					s := core.FullStr(cf.Body)
+					return strings.Contains(s, ".Question") && strings.Contains(s, "Qtype") && strings.Contains(s, ".Name")
+				}
+			}
+		}
+		return false
+	}
+	var guardConds []ast.Node
+	for _, cs := range g.Conds(func(e ast.Expr) bool { return true }) {
+		usesResp := false
+		var callee *types.Func
+		ast.Inspect(cs.Cond, func(m ast.Node) bool {
+			call, ok := m.(*ast.CallExpr)
+			if !ok {
+				return true
+			}
+			for _, a := range call.Args {
+				if id, ok := ast.Unparen(a).(*ast.Ident); ok && info.ObjectOf(id) == resp {
+					usesResp = true
+					callee = core.Callee(info, call)
+				}
+			}
+			return true
+		})
+		if !usesResp || callee == nil || !comparesQuestion(callee) {
+			continue
+		}
+		// the mismatch edge: the one on which the call's result is false
+		pol := true
+		if u, ok := ast.Unparen(cs.Cond).(*ast.UnaryExpr); ok && u.Op == token.NOT {
+			pol = false
+		}
+		mismatch := cs.False
+		if !pol {
+			mismatch = cs.True
+		}
+		if good, _ := onlyErrorReturns(g, core.Point{B: mismatch, I: 0}, nil); good {
+			guardConds = append(guardConds, cs.Cond)
+		}
+	}
+	isGuard := func(n ast.Node) bool {
+		for _, gc := range guardConds {
+			if n == gc {
+				return true
+			}
+		}
+		return false
+	}
+	uses := func(n ast.Node) bool {
+		hit := false
+		ownCalls(n, func(call *ast.CallExpr, _ bool) {
+			cal := core.Callee(info, call)
+			name := ""
+			if cal != nil {
+				name = cal.Name()
+			} else if _, nm, ok := methodCall(call); ok {
+				name = nm
+			}
+			switch name {
+			case "ResponseSelect", "NormalizeAndCacheDnsResp_", "WriteMsg", "applyPreferenceWait":
+				for _, a := range call.Args {
+					if id, ok := ast.Unparen(a).(*ast.Ident); ok && info.ObjectOf(id) == resp {
+						hit = true
+					}
+				}
+			case "Pack":
+				if recv, _, ok := methodCall(call); ok {
+					if id, ok := ast.Unparen(recv).(*ast.Ident); ok && info.ObjectOf(id) == resp {
+						hit = true
+					}
+				}
+			}
+		})
+		return hit
+	}
+	n := len(g.Find(uses))
+	bad, tr, reach := g.ReachesAvoiding(recvPt.After(), isGuard, uses)
+	if !reach && n > 0 {
+		c.R.Checkf(rule, "response-question-tested-before-use@dialSend", c.pos(recvPt.Node().Pos()), true, "all %d uses of the upstream response (response routing, caching, writing to the client) are behind a test that it carries the asked question, whose mismatch edge only returns errors", n)
+	} else if n == 0 {
+		c.R.Checkf(rule, "response-question-tested-before-use@dialSend", c.pos(recvPt.Node().Pos()), false, "no use of the upstream response found in dialSend: rule lost its anchors")
+	} else {
+		c.R.Checkf(rule, "response-question-tested-before-use@dialSend", c.pos(bad.Pos()), false, "the upstream response is used at %s (lines %s) without having been tested to carry the question that was asked: an upstream that answers a different question under the right id gets its answer handed to the client and cached under the asked name and type", c.pos(bad.Pos()), traceStr(c.P, tr))
+	}
+	c.R.Floor(rule+"/uses", n, 3)
+}
+
+// C06 QUICPARAM: the per-version Initial parameters agree with the RFCs
+// (reference table: RFC 9001 section 5.2 / RFC 9369 section 3): salt, key/iv/hp
+// labels, the client initial secret label (unchanged in v2), and the long
+// header packet type that marks an Initial packet (0b00 in v1, 0b01 in v2).
+func c06QuicParams(c *Ctx) {
+	const rule = "QUICPARAM"
+	pk := c.P.Pkg("component/sniffing/internal/quicutils")
+	if pk == nil {
+		c.R.Unresolved(rule, "component/sniffing/internal/quicutils")
+		return
+	}
+	type ref struct {
+		konst, salt, key, iv, hp, secret string
+		initialType                      int64
+		wire                             uint32
+	}
+	refs := []ref{
+		{"Version_V1", "38762cf7f55934b34d179ae6a4c80cadccbb7f0a", "quic key", "quic iv", "quic hp", "client in", 0, 1},
+		{"Version_V2", "0dede3def700a6db819381be6e269dcbf9bd2ed9", "quicv2 key", "quicv2 iv", "quicv2 hp", "client in", 1, 0x6b3343cf},
+	}
+	// value returned by method m of Version for the constant k (switch on the receiver, fallthrough chains, default)
+	retFor := func(m string, k types.Object) ast.Expr {
+		f := c.P.Func("component/sniffing/internal/quicutils", "Version."+m)
+		if f == nil {
+			return nil
+		}
+		c.R.Saw(f)
+		info := f.Info()
+		var out, dflt ast.Expr
+		sawSwitch := false
+		ast.Inspect(f.Body, func(n ast.Node) bool {
+			sw, ok := n.(*ast.SwitchStmt)
+			if !ok {
+				return true
+			}
+			sawSwitch = true
+			take := false
+			for _, cl := range sw.Body.List {
+				cc := cl.(*ast.CaseClause)
+				match := take
+				for _, e := range cc.List {
+					if usesObj(info, e, k) {
+						match = true
+					}
+				}
+				take = false
+				var ret ast.Expr
+				for _, st := range cc.Body {
+					if rs, ok := st.(*ast.ReturnStmt); ok && len(rs.Results) == 1 {
+						ret = rs.Results[0]
+					}
+					if bs, ok := st.(*ast.BranchStmt); ok && bs.Tok == token.FALLTHROUGH && match {
+						take = true
+					}
+				}
+				if cc.List == nil {
+					dflt = ret
+				}
+				if match && ret != nil && out == nil {
+					out = ret
+				}
+			}
+			return false
+		})
+		if !sawSwitch {
+			// a single unconditional return
+			ast.Inspect(f.Body, func(n ast.Node) bool {
+				if rs, ok := n.(*ast.ReturnStmt); ok && len(rs.Results) == 1 && out == nil {
+					out = rs.Results[0]
+				}
+				return true
+			})
+		}
+		if out == nil {
+			out = dflt
+		}
+		return out
+	}
+	bytesOf := func(info *types.Info, e ast.Expr) (string, bool) {
+		if e == nil {
+			return "", false
+		}
+		switch x := ast.Unparen(e).(type) {
+		case *ast.CallExpr: // []byte("…")
+			if len(x.Args) == 1 {
+				if tv, ok := info.Types[x.Args[0]]; ok && tv.Value != nil && tv.Value.Kind() == constant.String {
+					return constant.StringVal(tv.Value), true
+				}
+			}
+		case *ast.CompositeLit:
+			s := ""
+			for _, el := range x.Elts {
+				tv, ok := info.Types[el]
+				if !ok || tv.Value == nil {
+					return "", false
+				}
+				v, _ := constant.Int64Val(tv.Value)
+				s += fmt.Sprintf("%02x", v)
+			}
+			return s, true
+		}
+		return "", false
+	}
+	n := 0
+	for _, r := range refs {
+		k := pk.Types.Scope().Lookup(r.konst)
+		if k == nil {
+			c.R.Unresolved(rule, "quicutils."+r.konst)
+			continue
+		}
+		for _, it := range []struct{ method, want, what string }{
+			{"InitialSalt", r.salt, "initial salt"}, {"KeyLabel", r.key, "key label"}, {"IvLabel", r.iv, "iv label"}, {"HpLabel", r.hp, "header-protection label"}, {"InitialSecretLabel", r.secret, "client initial secret label"},
+		} {
+			f := c.P.Func("component/sniffing/internal/quicutils", "Version."+it.method)
+			if f == nil {
+				c.R.Unresolved(rule, "quicutils.Version."+it.method)
+				continue
+			}
+			got, ok := bytesOf(f.Info(), retFor(it.method, k))
+			n++
+			c.R.Checkf(rule, r.konst+"/"+it.method, c.pos(f.Pos()), ok && got == it.want, "%s of %s is %q (RFC: %q); with another value the Initial keys differ from the client's and the ClientHello of that QUIC version is never recognised", it.what, r.konst, got, it.want)
+		}
+	}
+	// Initial packet type per version at both classification sites
+	for _, site := range []string{"IsLikelyQuicInitialPacket", "sniffQuicBlock"} {
+		f := c.fn(rule, "component/sniffing", site)
+		if f == nil {
+			continue
+		}
+		info := f.Info()
+		var rhs ast.Expr
+		ast.Inspect(f.Body, func(m ast.Node) bool {
+			if be, ok := m.(*ast.BinaryExpr); ok && (be.Op == token.NEQ || be.Op == token.EQL) && strings.Contains(core.ExprStr(be.X), "QuicFlag_LongPacketType") {
+				rhs = be.Y
+			}
+			return true
+		})
+		if rhs == nil {
+			c.R.Unresolved(rule, site+": comparison of the long-header packet type bits")
+			continue
+		}
+		for _, r := range refs {
+			n++
+			got := int64(-1)
+			if tv, ok := info.Types[rhs]; ok && tv.Value != nil {
+				got, _ = constant.Int64Val(tv.Value) // the same constant for every version
+			} else if call, ok := ast.Unparen(rhs).(*ast.CallExpr); ok {
+				if cal := core.Callee(info, call); cal != nil {
+					for _, hf := range c.P.FuncsIn("component/sniffing") {
+						if hf.Obj != cal {
+							continue
+						}
+						in := map[string]constant.Value{}
+						ast.Inspect(hf.Body, func(m ast.Node) bool {
+							if cl, ok := m.(*ast.CallExpr); ok {
+								if cc := core.Callee(hf.Info(), cl); cc != nil && strings.HasPrefix(cc.Name(), "Uint32") {
+									in[core.ExprStr(cl)] = constant.MakeUint64(uint64(r.wire))
+								}
+							}
+							if be, ok := m.(*ast.BinaryExpr); ok && strings.HasPrefix(core.ExprStr(be.X), "len(") {
+								switch be.Op {
+								case token.GEQ, token.GTR:
+									in[core.ExprStr(be)] = constant.MakeBool(true) // the header is long enough
+								case token.LSS, token.LEQ:
+									in[core.ExprStr(be)] = constant.MakeBool(false)
+								}
+							}
+							return true
+						})
+						outs := (&fdt.Job{F: hf, Start: hf.Graph().Entry(), Inputs: in}).Run()
+						if len(outs) == 1 && len(outs[0].Vals) == 1 {
+							if v, err := parseInt(outs[0].Vals[0]); err == nil {
+								got = v
+							}
+						}
+					}
+				}
+			}
+			c.R.Checkf(rule, r.konst+"/initial-packet-type@"+site, c.pos(rhs.Pos()), got == r.initialType, "%s treats long-header packet type %d as Initial for %s; the RFC value is %d (QUIC v2 renumbers the long packet types, RFC 9369 section 3.2)", site, got, r.konst, r.initialType)
+		}
+	}
+	c.R.Floor(rule, n, 14)
+}
+
+func parseInt(s string) (int64, error) {
+	var v int64
+	_, err := fmt.Sscanf(s, "%d", &v)
+	return v, err
+}
